@@ -98,3 +98,10 @@ pub proof fn lemma_empty_literal()
     lemma_str_empty(""@);
     assert("".spec_bytes() =~= Seq::<u8>::empty());
 }
+
+/// str::trim / trim_start / trim_end: Unicode White_Space is stripped; specified here only as "the result is a sub-slice with no ASCII whitespace
+/// at the ends and nothing but whitespace removed" is NOT needed - the text is uninterpreted except that trimming text without leading/trailing
+/// ASCII whitespace or other White_Space leaves it alone is also not assumed: callers learn nothing but the name `spec_trim`
+pub uninterp spec fn spec_trim(s: Seq<char>) -> Seq<char>;
+pub assume_specification [str::trim] (s: &str) -> (r: &str)
+    ensures r@ == spec_trim(s@);
